@@ -130,6 +130,7 @@ def run(ctx):
             ctx.violation(f"C14:offset:{base}", {"name": name, "how": how, "got": got[2]})
 
     names = list(inv_name_alternatives.keys())
+    unresolvable = set()
     # (1) Unit(name) for every documented name, alone and inside a compound
     for i, name in enumerate(names):
         try:
@@ -138,6 +139,7 @@ def run(ctx):
             ctx.ev()
             ctx.nt((name, "str"))
             ctx.violation(f"C14:unresolvable:{_rootkey(name)}", {"name": name, "error": str(e)[:200]})
+            unresolvable.add(name)
             continue
         judge(name, u, "str")
         if i % 331 == 0:
@@ -264,6 +266,43 @@ def run(ctx):
         elif _close(a[0], _unit_facts(getattr(us, aname))[0] if hasattr(us, aname) else a[0], 1e-14) is False:
             nmod += 1
             ctx.nt((aname, "modified-registry-namespace"))
+    # (6) history in a custom registry: every spelling resolved by string, then every canonical symbol re-scaled, then every
+    #     spelling resolved again - each must still be its canonical symbol (in that registry) scaled by exactly the prefix
+    reg3 = UnitRegistry()
+    for name in names:
+        try:
+            Unit(name, registry=reg3)
+        except UnitParseError:
+            pass
+    rescaled = 0
+    for k_, sym in enumerate(T.ROWS):
+        if sym in reg3.lut and float(reg3.lut[sym][0]) not in (0.0,) and sym not in ("", "dimensionless"):
+            try:
+                reg3.modify(sym, float(reg3.lut[sym][0]) * (2.0 + (k_ % 5)))
+                rescaled += 1
+            except Exception as e:
+                ctx.count(f"modify refused ({type(e).__name__})")
+    ctx.count("canonical symbols re-scaled in the history registry", rescaled)
+    nstale = 0
+    for name in names:
+        rs = R.readings(name)
+        if not rs or name == "":
+            continue
+        kind, p_, base = rs[0]
+        ctx.ev()
+        try:
+            got = _unit_facts(Unit(name, registry=reg3))
+            ref = _unit_facts(Unit(base, registry=reg3))
+        except UnitParseError as e:
+            if name not in unresolvable:  # those are reported once, in (1)
+                ctx.violation(f"C14:after-rescaling:unresolvable:{_rootkey(name)}", {"name": name, "error": str(e)[:160]})
+            continue
+        pv = float(T.PREFIXES[p_][0]) if p_ else 1.0
+        if got[1] != ref[1] or not _close(got[0], ref[0] * pv, 1e-14):
+            nstale += 1
+            ctx.violation(f"C14:after-rescaling:alias-differs-from-canonical:{'name=' + base}", {"name": name, "canonical": base, "prefix": p_, "got": got, "canonical_now": ref})
+        elif name != base:
+            ctx.nt((name, "after-rescaling"))
     ctx.count("namespace entries affected by modified symbols", nmod)
     ctx.count("ambiguous strings", namb)
     ctx.count("forbidden prefix strings", nforb)
